@@ -1178,6 +1178,21 @@ func execNet(t *testing.T, raw json.RawMessage, res *Result, focus string) {
 				return
 			}
 			success := cr.Err == nil
+			if !success && !faultDuring && len(p.Faults) == 0 && focus != "C17" {
+				// without any fault an operation may only fail for a reason the user is told about and can act on
+				msg := cr.Err.Error() + "\n" + cr.Stdout
+				expected := false
+				for _, ok := range []string{"failed to fetch some refs", "failed to push some refs", "non-fast-forward", "rejected", "nothing to create ref", "table not found", "try fetching it", "wrgl fetch tables", "is not a branch name", "can't find branch", "can't find commit", "conflict", "nothing to push", "does not match any", "remote rejected", "unrelated", "common ancestor", "no upstream", "Everything up-to-date", "primary key differs", "can't merge", "shallow", "no refspec specified", "has no parent"} {
+					if strings.Contains(msg, ok) {
+						expected = true
+					}
+				}
+				if !expected {
+					res.Violate(pfx+"-unexpected-failure", "%s (`wrgl %s`): no fault was injected, yet the operation failed: %v\n%s", when, strings.Join(args, " "), cr.Err, cr.Stdout)
+					return
+				}
+				res.probe("operation_refused", 1)
+			}
 			switch op.Op {
 			case "fetch", "pull", "pullall":
 				if success || op.Op == "fetch" {
